@@ -850,12 +850,20 @@ func exec(p prog, c *hx.Case) error {
 		failuresPending := len(w.failNext)
 		w.mu.Unlock()
 		if !curHealthy && enough() && failuresPending == 0 {
-			heartbeat()
-			settle()
-			if err := examine(step); err != nil {
-				return err
+			// (Job.start runs on a goroutine of its own, which on a busy machine may
+			// get going only after the task queue has long been idle: the deployment
+			// is waited for, not assumed to be there within a few hundred microseconds)
+			for wait := 0; wait < 400 && !curHealthy; wait++ {
+				heartbeat()
+				settle()
+				if err := examine(step); err != nil {
+					return err
+				}
+				refreshHealth()
+				if !curHealthy {
+					time.Sleep(5 * time.Millisecond)
+				}
 			}
-			refreshHealth()
 			if !curHealthy {
 				var ups []string
 				for _, y := range ws {
